@@ -81,11 +81,22 @@ var props = map[string]*Prop{
 	},
 	"C06": {
 		Level: "model_checking",
-		Rule: "explicit-state breadth-first search whose transitions call the real PebbleScanner on an in-memory file system: 45-operation alphabet (24 single adds over IDs{A,B} x topology hash{2} x fuzzy hash{2,none} x entropy/tolerance{2, straddling a %08.4f rounding boundary}, 5 batch adds with repeated IDs, deletes incl. a missing ID, false-positive marks, RebuildIndexes, close+reopen, Checkpoint, Compact, threshold/tolerance setters); state = sorted dump of the physical key space + scanner fields + path-derived overwrite/dirty abstraction; after EVERY transition ~60 lookups (by ID, by topology, 9 entropy ranges, candidates/alerts/exact/batch for 5 probe topologies, listing, counts, stats, export) are compared with brute force over a reference map. Non-trivial = distinct state.",
+		Rule: "explicit-state breadth-first search whose transitions call the real PebbleScanner on an in-memory file system: 45-operation alphabet (24 single adds over IDs{A,B} x topology hash{2} x fuzzy hash{2,none} x entropy/tolerance{2, straddling a %08.4f rounding boundary}, 5 batch adds with repeated IDs, deletes incl. a missing ID, false-positive marks, RebuildIndexes, close+reopen, Checkpoint, Compact, threshold/tolerance setters); state = sorted dump of the physical key space + scanner fields + path-derived overwrite/dirty abstraction; after EVERY transition ~60 lookups (by ID, by topology, 9 entropy ranges, candidates/alerts/exact/batch for 5 probe topologies, listing, counts, stats, export) are compared with brute force over a reference map. A second unit enumerates EVERY operation sequence up to depth 4 (quick) / 6 (thorough) over a 12-operation alphabet with NO state merging (shadowed versions and tombstones inside the LSM are invisible in the key space). Non-trivial = distinct state (BFS) / distinct sequence.",
 		Assumptions: []string{"states that differ only in the number (>=1) of false-positive notes are merged", "Pebble itself is trusted; detection.MatchSignature is used by the brute-force side (it is C08's subject)"},
-		Bounds:      map[string]string{"quick": "all histories of <=3 operations", "thorough": "fixpoint of the reachable state space (cap 60000 states, internal deadline)"},
+		Bounds:      map[string]string{"quick": "BFS: all histories of <=3 operations over 45 ops; sequences: depth <=4 over 12 ops", "thorough": "BFS: fixpoint of the reachable state space (cap 60000 states, internal deadline); sequences: depth <=6 over 12 ops"},
 		Units: []Unit{
 			{Name: "store-bfs", Pkg: "pkg/storage/pebbledb", Test: "TestVerifC06", Shards: sh(1, 1), GoMaxProcs: 16, TimeoutS: sh(900, 3600), DeadlineS: sh(300, 1500)},
+			{Name: "store-sequences", Pkg: "pkg/storage/pebbledb", Test: "TestVerifC06Seq", Shards: sh(16, 16), GoMaxProcs: 1, TimeoutS: sh(900, 3600), DeadlineS: sh(300, 1500)},
+		},
+	},
+	"C07": {
+		Level: "fault_enumeration",
+		Rule: "every history of <=2 (quick) / <=3 (thorough) operations from a 10-operation alphabet (add new, add update moving all three index keys, second ID, batch of 2, delete, false-positive mark, RebuildIndexes, SetMetadata, close+reopen, Checkpoint) is executed ONCE on a logging file system; for EVERY prefix of the operation log (each create/write/sync/rename/remove/link/mkdir issued by the store or by Pebble's background work) the durable images are built by replay onto Pebble's strict MemFS: nothing written back, every subset of the dirty files/directories written back (all subsets up to 4 items, otherwise none/all/singles/complements), and the same with the first half of an in-flight write; each distinct image is opened with the real NewPebbleScanner and must equal (query battery + physical index consistency) the acknowledged state or acknowledged+in-flight; interrupted rebuilds must keep all records and a second rebuild must restore consistency. A bulk unit preloads 1100 signatures so that RebuildIndexes commits in several chunks. Non-trivial = distinct (history, durable image).",
+		Assumptions: []string{"crash model = Pebble's own strict MemFS: per-file content and per-directory entries survive iff synced; sector-level tearing inside a synced write and cross-file reordering beyond the enumerated write-back subsets are not modelled", "crash points start after the database has been created (creation atomicity is Pebble's)"},
+		Bounds:      map[string]string{"quick": "histories <=2 ops (110) + bulk rebuild", "thorough": "histories <=3 ops (1110) + bulk rebuild"},
+		Units: []Unit{
+			{Name: "crash-images", Pkg: "pkg/storage/pebbledb", Test: "TestVerifC07", Shards: sh(16, 16), TimeoutS: sh(900, 3600), DeadlineS: sh(400, 2400)},
+			{Name: "crash-bulk-rebuild", Pkg: "pkg/storage/pebbledb", Test: "TestVerifC07Bulk", Shards: sh(16, 16), TimeoutS: sh(900, 3600), DeadlineS: sh(400, 2400)},
 		},
 	},
 }
